@@ -173,4 +173,57 @@ Section Facts.
     unfold prim. intros H Hn. destruct (lookups h args) as [cs|]; try discriminate.
     inversion H; subst. rewrite nth_error_app2, Nat.sub_diag in Hn by lia. simpl in Hn. inversion Hn. reflexivity.
   Qed.
+
+  (* ---- C09 / C18 frame: an instruction changes at most its declared target; everything else on
+          the heap (every other array obtained earlier) keeps graph variable and value ------------ *)
+  Lemma prim_appends ort h k args h' : prim ort h k args = Some h' -> exists c, h' = h ++ [c].
+  Proof.
+    unfold prim. intros H. destruct (lookups h args) as [cs|]; try discriminate.
+    destruct (if ort then all_some (map eager cs) else None) as [vs|].
+    - destruct (sem k vs); try discriminate. inversion H. eauto.
+    - inversion H. eauto.
+  Qed.
+  Lemma copy_appends h l h' : copy h l = Some h' -> exists c, h' = h ++ [c].
+  Proof. unfold copy. intros H. destruct (nth_error h l); try discriminate. inversion H. eauto. Qed.
+
+  Theorem step_frame lazy ort h i h' l :
+    step lazy ort h i = Some h' -> l < length h ->
+    (forall d s, i = ISet val opid d s -> l <> d) ->
+    nth_error h' l = nth_error h l.
+  Proof.
+    intros H Hl Hd.
+    assert (Happ : forall c, nth_error (h ++ [c]) l = nth_error h l) by (intros; now apply nth_error_app1).
+    destruct i as [n v|k args|x|d s|c o p k args]; simpl in H.
+    - inversion H; subst. apply Happ.
+    - destruct (prim_appends _ _ _ _ _ H) as [c ->]. apply Happ.
+    - destruct (copy_appends _ _ _ H) as [c ->]. apply Happ.
+    - destruct (nth_error h d) eqn:Ed; try discriminate. destruct (nth_error h s) as [src|] eqn:Es; try discriminate.
+      inversion H; subst. rewrite nth_error_set_nth by (apply nth_error_Some; congruence).
+      specialize (Hd d s eq_refl). destruct (Nat.eqb l d) eqn:E; auto. apply Nat.eqb_eq in E. contradiction.
+    - destruct (lookups h args); try discriminate. destruct (nth_error h c) as [cc|]; try discriminate.
+      destruct (eager cc) as [v|]; [destruct (p v)|];
+        first [destruct (copy_appends _ _ _ H) as [c' ->] | destruct (prim_appends _ _ _ _ _ H) as [c' ->]]; apply Happ.
+  Qed.
+
+  (* over whole programs: an array that is never the target of an in-place update is never changed *)
+  Theorem run_frame lazy ort p : forall h h' l,
+    run lazy ort h p = Some h' -> l < length h ->
+    (forall d s, In (ISet val opid d s) p -> l <> d) ->
+    nth_error h' l = nth_error h l.
+  Proof.
+    induction p as [|i r IH]; intros h h' l H Hl Hd; simpl in H.
+    - inversion H. reflexivity.
+    - destruct (step lazy ort h i) as [h1|] eqn:E; try discriminate.
+      assert (Hlen : length h <= length h1).
+      { destruct i as [n v|k args|x|d s|c o pp k args]; simpl in E.
+        - inversion E. rewrite app_length. lia.
+        - destruct (prim_appends _ _ _ _ _ E) as [c ->]. rewrite app_length. lia.
+        - destruct (copy_appends _ _ _ E) as [c ->]. rewrite app_length. lia.
+        - destruct (nth_error h d); try discriminate. destruct (nth_error h s); try discriminate. inversion E. now rewrite length_set_nth.
+        - destruct (lookups h args); try discriminate. destruct (nth_error h c) as [cc|]; try discriminate.
+          destruct (eager cc) as [v|]; [destruct (pp v)|];
+            first [destruct (copy_appends _ _ _ E) as [c' ->] | destruct (prim_appends _ _ _ _ _ E) as [c' ->]]; rewrite app_length; lia. }
+      rewrite (IH h1 h' l H); [|lia|intros d s Hin; apply (Hd d s); now right].
+      apply (step_frame lazy ort h i h1 l E Hl). intros d s ->. apply (Hd d s). now left.
+  Qed.
 End Facts.
